@@ -107,6 +107,10 @@ class _Ctx:
     pass
 
 
+class _OrderAmbiguous(Exception):
+    """the outcome of the next register_program depends on the iteration order inside one id's channel set"""
+
+
 _ANY = object()      # shadow state: "the interface does not say"
 
 
@@ -503,10 +507,22 @@ def _run(case):
                     kwargs['run_callback'] = 'not callable'
                 wired = []
                 for c in chan_order:
+                    slot_trafo = {}
                     for s in setup.registered_channels().get(IDS[c], ()):
                         ai = awg_ix.get(id(getattr(s, 'awg', None)))
                         if ai is not None and ai not in wired:
                             wired.append(ai)
+                        if ai is not None:
+                            # Round 5 (false alarm, seed 2): two members of ONE id's channel set that denote the same output
+                            # (index j and j - n) with different transformations: which one ends up in the uploaded tuple
+                            # depends on the iteration order of that Python set (hash of id(awg), i.e. on memory addresses).
+                            # The model iterates in insertion order and has no input for this order; the specification
+                            # accepts either.  The history is cut before such a call.
+                            mk = isinstance(s, MarkerChannel)
+                            pos = S.norm_idx(case['awgs'][ai][1 if mk else 0], int(s.channel_on_awg))
+                            tr = None if mk else trafo_ix[id(s.voltage_transformation)]
+                            if pos is not None and slot_trafo.setdefault((ai, mk, pos), tr) != tr:
+                                raise _OrderAmbiguous()
                 del upload_log[:]
                 hint = {'chan_order': chan_order, 'meas': own, 'awg_order': None}
                 try:
@@ -538,6 +554,8 @@ def _run(case):
                     entry[3] = False
             else:
                 raise RuntimeError('unknown op %r' % k)
+        except _OrderAmbiguous:
+            return {'steps': steps, 'truncated': True}
         except (TypeError, KeyError, ValueError, IndexError) as e:
             err = type(e).__name__
         except Exception as e:
@@ -1578,6 +1596,8 @@ def histogram_keys(case, obs):
     keys.append('spec:' + ('ok' if verdict is None else verdict['clause']))
     if case.get('ids'):
         keys.append('ids:int' if all(isinstance(x, int) for x in case['ids']) else 'ids:mixed')
+    if obs.get('truncated'):
+        keys.append('obs:cut-before-set-order-dependent-call')
     if 'reused' in obs:
         keys.append('idreuse:%s' % ('hit' if obs['reused'] else 'miss'))
     stt = S.statuses(case, obs)
